@@ -247,7 +247,7 @@ def parent(args):
     tier = args.tier
     nsh = int(getattr(mod, "SHARDS", {}).get(tier, 1 if tier == "quick" else 16))
     nsh = max(1, min(nsh, os.cpu_count() or 1))
-    cap = float(getattr(mod, "TIME_CAP", {}).get(tier, 150 if tier == "quick" else 2400))
+    cap = float(getattr(mod, "TIME_CAP", {}).get(tier, 600 if tier == "quick" else 2400))
     os.makedirs(WORK, exist_ok=True)
     tag = "%s-%s-%d-%d" % (args.prop, tier, os.getpid(), int(t0))
     procs = []
@@ -323,7 +323,7 @@ def finish(mod, args, parts, digests, inconclusive, t0, nsh):
     harness_errors = [e for p in parts for e in p["harness_errors"]]
     if harness_errors:
         inconclusive.append("harness error: " + harness_errors[0]["traceback"].strip().splitlines()[-1])
-    cap = float(getattr(mod, "TIME_CAP", {}).get(args.tier, 150 if args.tier == "quick" else 2400))
+    cap = float(getattr(mod, "TIME_CAP", {}).get(args.tier, 600 if args.tier == "quick" else 2400))
     truncated = any(p["truncated"] for p in parts)      # the region / route / probe quotas below decide whether what was explored suffices for a verdict
     # quotas
     mult = 1 if tier == "quick" else int(getattr(mod, "THOROUGH_QUOTA_MULT", 4))
@@ -513,7 +513,7 @@ def main(argv=None):
     ap.add_argument("--shard", type=int, default=0)
     ap.add_argument("--nshards", type=int, default=1)
     ap.add_argument("--out")
-    ap.add_argument("--time-cap", default="150")
+    ap.add_argument("--time-cap", default="600")
     args = ap.parse_args(argv)
     if args.child:
         return child(args)
